@@ -282,9 +282,51 @@ def custom_environment_class(jinja2):
     return CustomEnvironment, MyUndefined
 
 
+def relativize(h, srcs):
+    """the same hierarchy laid out in nested directories (t0, s1/t1, s1/s2/t2, ...) for an environment whose
+    join_path resolves './x' relative to the REFERRING template: constant extends targets are written relative to the
+    template that contains them; returns (sources, name of the rendered template, data for dynamic extends)"""
+    import re
+    order = [t["name"] for t in h["templates"]]
+    path = {}
+    for i, n in enumerate(order):
+        path[n] = "/".join(["s%d" % j for j in range(1, i + 1)] + [n])
+    new = {}
+    for n, src in srcs.items():
+        if n not in path:
+            new[n] = src
+            continue
+        i = order.index(n)
+
+        def rel(m, i=i):
+            tgt = m.group(2)
+            if tgt in path and order.index(tgt) > i:
+                return m.group(1) + repr("./" + "/".join(["s%d" % j for j in range(i + 1, order.index(tgt) + 1)] + [tgt]))
+            return m.group(1) + repr(path.get(tgt, tgt))
+        new[path[n]] = re.sub(r"(\{% extends )'([^']*)'", rel, src)
+    xdata = {}
+    for k, v in extends_data(h).items():
+        if isinstance(v, tuple):
+            xdata[k] = (v[0], path.get(v[1], v[1]))
+        elif isinstance(v, str):
+            xdata[k] = path.get(v, v)
+        else:
+            xdata[k] = v
+    return new, path[h["chain"][0]], xdata
+
+
 def make_env(jinja2, loader, kind="plain", **kw):
     """the configuration axes C04's text does not exclude: sync / async rendering, autoescaping, sandbox, overridden
     extension points"""
+    if kind == "relpath":
+        import posixpath
+
+        class RelEnv(jinja2.Environment):
+            def join_path(self, template, parent):
+                if template.startswith("./"):
+                    return posixpath.normpath(posixpath.join(posixpath.dirname(parent), template))
+                return template
+        return RelEnv(loader=loader, **kw)
     if kind == "custom":
         cls, undef = custom_environment_class(jinja2)
         return cls(loader=loader, undefined=undef, finalize=lambda v: v, **kw)
